@@ -873,3 +873,31 @@ from . import tainted as _tainted  # noqa
 PSEUDO_OBJ_ATTR['tainted'] = _tainted.attr
 for _n in ('quoted', '__str__') + tuple('wrap.' + x for x in _tainted.WRAPPING) + tuple('cond.' + x for x in _tainted.CONDITIONAL):
     TABLE['tainted.' + _n] = (lambda E, a, k, n, _nm='tainted.' + _n: _tainted.call(E, _nm, a, k, n))
+
+
+def _dictview_attr(E, obj, h, name):
+    """obj.__dict__: items()/keys()/values()/get of a non-lazy object's attribute dictionary"""
+    target = E.heap[h.fields['obj'].addr]
+    if target.lazy:
+        raise Unsupported('__dict__.%s of an object with unknown attributes' % name)
+    if name in ('items', 'keys', 'values'):
+        return VBM(VBI('dictview.' + name), obj)
+    raise Unsupported('__dict__.' + name)
+
+
+def _dictview_method(name):
+    def f(E, args, kwargs, node):
+        target = E.heap[E.heap[args[0].addr].fields['obj'].addr]
+        if name == 'items':
+            items = [VT([VC(k), v]) for k, v in target.fields.items()]
+        elif name == 'keys':
+            items = [VC(k) for k in target.fields]
+        else:
+            items = list(target.fields.values())
+        return E.alloc(HObj(None, {'items': items}, name='iter_list'))
+    return f
+
+
+PSEUDO_OBJ_ATTR['dictview'] = _dictview_attr
+for _n in ('items', 'keys', 'values'):
+    TABLE['dictview.' + _n] = _dictview_method(_n)
